@@ -100,9 +100,12 @@ Example C20_ex_concurrent_recreate_reuses :
 Proof. vm_compute. reflexivity. Qed.
 
 (** no path through newACMEClientWithAccount or the compare-and-delete of the recreate path —
-    success, error, storage fault — leaks the registration lock: when nothing is in flight it is free *)
-Theorem C20_lock_free_when_quiescent : forall s,
-  reachable s -> (forall t, finished (t_pc (thr s t)) = true) -> lock s = None.
+    success, error, storage fault — leaks the registration lock: in every run in which no Unlock
+    itself failed, the lock is free whenever nothing is in flight. (A failed Unlock is logged and
+    ignored by the code; the model then keeps the lock held: [Examples.unlock_fault_leaves_lock].) *)
+Theorem C20_lock_free_when_quiescent : forall ls s,
+  run init ls = Some s -> unlock_faults init ls = 0 ->
+  (forall t, finished (t_pc (thr s t)) = true) -> lock s = None.
 Proof. exact lock_free_when_quiescent. Qed.
 Print Assumptions C20_lock_free_when_quiescent.
 
